@@ -94,15 +94,11 @@ def Box.centroid [Add α] [Div α] [OfNat α 2] (b : Box α) : Pt α :=
 
 /-! ## Len() -/
 
-/-- `for _, l := range ls { i += len(l) }` -/
-def sumLen {β : Type} : List (List β) → Nat
-  | [] => 0
-  | l :: ls => l.length + sumLen ls
+/-- `var i int; for _, l := range ls { i += len(l) }; return i` -/
+def sumLen {β : Type} (ls : List (List β)) : Nat := ls.foldl (fun i l => i + l.length) 0
 
-/-- `for _, p := range mp { i += p.Len() }` -/
-def sumLen2 {β : Type} : List (List (List β)) → Nat
-  | [] => 0
-  | p :: ps => sumLen p + sumLen2 ps
+/-- `var i int; for _, p := range mp { i += p.Len() }; return i` -/
+def sumLen2 {β : Type} (ps : List (List (List β))) : Nat := ps.foldl (fun i p => i + sumLen p) 0
 
 mutual
 def lenG : Geom α → Except Fault Nat
